@@ -125,8 +125,8 @@ int main(int argc, char** argv) {
         if (N == 1 && (kv.first == "suspend0" || kv.first == "suspend2")) continue;   // a task that spin-waits for another task needs a second thread
         cosched::untrack_all(); TR.begin_exec(); memset(g_written, 0, sizeof g_written); for (auto& x : g_sp) vh::rawstore(x, (void*)nullptr);
         TR.emit("{\"e\":\"Scenario\",\"name\":\"%s\",\"threads\":%d}", kv.first.c_str(), N);
-        Result r = run_in_arena(N, seed0 + s * 7919 + paths, dens[s % 8], 30000000, [&] { kv.second(); TR.emit("{\"e\":\"Quiesce\"}"); }, true,
-                                kv.first == "suspendF" ? std::function<void()>(foreign_resumer) : kv.first == "suspendF3" ? std::function<void()>(foreign_resumer3) : std::function<void()>()); ++paths; steps += r.steps; if (r.rc) ++stuck;
+        Result r = isolated_run(300, [&] { return run_in_arena(N, seed0 + s * 7919 + paths, dens[s % 8], 30000000, [&] { kv.second(); TR.emit("{\"e\":\"Quiesce\"}"); }, true,
+                                kv.first == "suspendF" ? std::function<void()>(foreign_resumer) : kv.first == "suspendF3" ? std::function<void()>(foreign_resumer3) : std::function<void()>()); }); ++paths; steps += r.steps; if (r.rc) ++stuck;
     }
     TR.close();
     printf("{\"paths\":%ld,\"steps\":%ld,\"stuck\":%ld,\"wall\":%.2f}\n", paths, steps, stuck, tm.s());
